@@ -63,6 +63,13 @@ def scenarios(tier):
                 pass
             out.append({"name": "%s||%s from %s" % (a, b, st), "init": st,
                         "threads": {"T1": [MENU[a]], "T2": [MENU[b]]}, "pids": ("p1", "p2")})
+    # two quick triples (pre-emption bound 2) that need a third party: a waiter woken by the release of ANOTHER
+    # cid, and a late arrival overtaking a notified waiter
+    t3 = {"t3B": ("tag", "p3", "B"), "t3A": ("tag", "p3", "A")}
+    mq = dict(MENU, **t3)
+    for tri, st in [(("t1A", "t2A", "t3B"), "Aunref"), (("xA", "t1A", "t2A"), "Aunref")]:
+        out.append({"name": "%s||%s||%s from %s (pre-emption bound 2)" % (tri + (st,)), "init": st, "bound": 2,
+                    "threads": {"T%d" % (i + 1): [mq[x]] for i, x in enumerate(tri)}, "pids": ("p1", "p2", "p3")})
     if tier == "thorough":
         for a, b, st in [("s2A", "d1", "p1A"), ("t1A", "d1", "empty"), ("s1A", "s2A", "empty"), ("s1A", "s1B", "empty")]:
             out.append({"name": "%s||%s from %s (pristine directories)" % (a, b, st), "init": st, "pristine": True, "time_cap": 400,
